@@ -10,6 +10,7 @@ import (
 	"github.com/PowerDNS/lightningstream/config"
 	zz "github.com/PowerDNS/lightningstream/internal/zzverif"
 	"github.com/PowerDNS/lightningstream/lmdbenv/header"
+	"github.com/PowerDNS/lightningstream/snapshot"
 	"github.com/PowerDNS/lightningstream/syncer/events"
 	"github.com/PowerDNS/lightningstream/syncer/hooks"
 	"github.com/PowerDNS/lmdb-go/lmdb"
@@ -197,3 +198,63 @@ func vTsTxn(b []byte) (ts, txn uint64) {
 func VerifC11Bytes() { verifC11(false, 0) }
 func VerifC11Int4()  { verifC11(true, 4) }
 func VerifC11Int8()  { verifC11(true, 8) }
+
+// VerifC11LargeInsert: the application owns the even keys with values of about 930 bytes (so
+// that, natively, inserting between them splits LMDB leaf pages); a remote snapshot brings the
+// odd keys, all newer. After the merge the application DBI holds exactly the six live entries.
+// (Under the engine the LMDB model enforces the documented lifetime of Txn.RawRead memory:
+// slices handed out with RawRead set are scribbled over by the next update in the transaction.)
+func VerifC11LargeInsert() {
+	env := zz.NewEnv()
+	st := &vStore{}
+	s := vFullSyncer(env, st, "inst", false, nil)
+	ctx := context.Background()
+	mkKey := func(i int) []byte { return []byte("key-0000" + string(rune('0'+i))) }
+	mkVal := func(i int, who string) []byte {
+		v := []byte("value-of-0000" + string(rune('0'+i)) + "-written-by-" + who)
+		return append(v, bytes.Repeat([]byte{'x'}, 900)...)
+	}
+	t0 := zz.NondetU64("t0")
+	ts := zz.NondetU64("remote.ts")
+	zz.Assume(zz.And(t0 > 0, ts > t0))
+	err := env.Update(func(txn *lmdb.Txn) error {
+		dbi, err := txn.OpenDBI("foo", lmdb.Create)
+		if err != nil {
+			return err
+		}
+		for i := 0; i < 6; i += 2 {
+			if err := txn.Put(dbi, mkKey(i), mkVal(i, "local"), 0); err != nil {
+				return err
+			}
+		}
+		return s.mainToShadow(ctx, txn, header.Timestamp(t0))
+	})
+	if err != nil {
+		zz.Assert(false, "harness/setup")
+		return
+	}
+	var kvs []snapshot.KV
+	for i := 1; i < 6; i += 2 {
+		kvs = append(kvs, snapshot.KV{Key: mkKey(i), Value: mkVal(i, "remote"), TimestampNano: ts})
+	}
+	snap := &snapshot.Snapshot{FormatVersion: 3, CompatVersion: 1}
+	snap.Meta.InstanceID = "other"
+	snap.Databases = append(snap.Databases, vSnapDBI("foo", 0, "", kvs))
+	upd := snapshot.Update{Snapshot: snap, NameInfo: snapshot.NameInfo{Kind: snapshot.KindSnapshot, InstanceID: "other"}}
+	zz.ClockStep()
+	_, _, err = s.LoadOnce(ctx, env, "other", upd, header.TxnID(zz.LastTxnID(env)))
+	zz.Assert(err == nil, "C11/insert/load-no-error")
+	if err != nil {
+		return
+	}
+	app, _ := zz.Dump(env, "foo")
+	zz.Assert(len(app) == 6, "C11/insert/application-dbi-has-all-live-entries")
+	for i := 0; i < 6; i++ {
+		who := "local"
+		if i%2 == 1 {
+			who = "remote"
+		}
+		zz.Assert(bytes.Equal(vFind(app, mkKey(i)), mkVal(i, who)), "C11/insert/entry-present-with-its-value")
+	}
+	zz.Reach("C11/insert/done")
+}
